@@ -157,7 +157,13 @@ def roundtrips(rng, n):
                 big.save(path)
             except Exception:
                 pass
-        sk.save(path)
+        import pathlib
+        if i % 4 == 1:
+            sk.save(pathlib.Path(path))            # str | Path
+        elif i % 4 == 2:
+            sk.save(path[:-4])                      # without the extension: .npz is appended
+        else:
+            sk.save(path)
         if kind in ("linear", "log16", "log8"):
             loaders = ["linear", "log16", "log8", "countmin.load"]
         else:
